@@ -776,6 +776,16 @@ fn replay_dir(id: &str) -> PathBuf {
 pub fn worker_main(mon: &dyn Monitor, tier: Tier, seed: u64, shard: usize, nshards: usize, from: usize) {
 	install_panic_hook();
 	install_logger();
+	// process environment as a dimension: odd shards run with the variables that build and
+	// packaging tools commonly set or honour; nothing the library does may depend on them
+	if shard % 2 == 1 {
+		std::env::set_var("SOURCE_DATE_EPOCH", "1700000000");
+		std::env::set_var("TZ", "Pacific/Kiritimati");
+		std::env::set_var("LC_ALL", "tr_TR.UTF-8");
+		std::env::set_var("LANG", "tr_TR.UTF-8");
+	} else {
+		std::env::remove_var("SOURCE_DATE_EPOCH");
+	}
 	let dir = work_dir(mon.id());
 	let mut log = OpenOptions::new().create(true).append(true).open(dir.join(format!("shard-{}.log", shard))).expect("open shard log");
 	let progress = OpenOptions::new().create(true).write(true).open(dir.join(format!("progress-{}", shard))).expect("open progress");
